@@ -233,7 +233,10 @@ pub fn eval(n: &Node, at: C) -> R {
                             let w = asinh_acc(C::new(-z.im, z.re));
                             C::new(w.im, -w.re)
                         } else {
-                            z.acos()
+                            // Kahan: accurate next to z = +-1, where the library's logarithm form cancels
+                            let a = (C::new(1.0, 0.0) - z).sqrt();
+                            let b = (C::new(1.0, 0.0) + z).sqrt();
+                            C::new(2.0 * a.re.atan2(b.re), crate::ev_f64::asinh_acc((b.conj() * a).im))
                         },
                     )
                 }
@@ -257,7 +260,11 @@ pub fn eval(n: &Node, at: C) -> R {
                     if near_real_beyond(z, |x| x <= 1.0 + 1e-6) {
                         return RV::Unspec("U3: acosh on a branch cut");
                     }
-                    approx(q, z.acosh())
+                    approx(q, {
+                        let a = (z - C::new(1.0, 0.0)).sqrt();
+                        let b = (z + C::new(1.0, 0.0)).sqrt();
+                        C::new(crate::ev_f64::asinh_acc((a.conj() * b).re), 2.0 * a.im.atan2(b.re))
+                    })
                 }
                 Atanh => {
                     if near_real_beyond(z, |x| x.abs() >= 1.0 - 1e-6) {
